@@ -438,6 +438,63 @@ def directed_snapshot(ctx, rng, grow=2):
     return c, v, note
 
 
+def directed_snapshot_removal(ctx, rng):
+    """A member is cut off while another member is REMOVED (committed) and everybody else compacts: after the heal it
+    learns the removal from a snapshot — the removed node must be gone from its member set."""
+    c = Cluster(ctx, rng, 5)
+    sim = c.sim
+    L = sim.elect()
+    sim.run(3)
+    if L is None:
+        return c, [], "no leader"
+    others = [i for i in sim.voters if i != L]
+    victim, gone = others[0], others[1]
+    for j in list(sim.objs):
+        if j != victim:
+            sim.disconnect(victim, j)
+    c.isolated.add(victim)
+    c.request(L, "rem", gone)
+    for _ in range(12):
+        sim.run(1)
+        c.check("rem %s" % gone)
+    # the removed node is shut down (operator discipline)
+    for j in list(sim.objs):
+        if j != gone:
+            sim.disconnect(gone, j)
+    c.isolated.add(gone)
+    live = [i for i in sim.objs if i not in (victim, gone)]
+    L = sim.leader(live)
+    if L is not None:
+        for k in range(3):
+            sim.submit(L, "r%d" % k)
+    sim.run(6, among=live)
+    for i in live:
+        sim.compact(i)
+    sim.run(4, among=live)
+    first_before = sim.log_of(victim)[0][0]
+    c.isolated.discard(victim)
+    c.sync_connections()
+    for _ in range(24):
+        sim.run(1, among=live + [victim])
+        c.sync_connections()
+        c.check("catch-up of %s after the removal of %s" % (victim, gone))
+        if c.viols:
+            break
+    note = None
+    if sim.log_of(victim)[0][0] > first_before:
+        c.cov["learned-removal-by-snapshot"] += 1
+    else:
+        note = "victim did not need a snapshot"
+    if gone in c.members(victim) and sim.objs[victim].raftLastApplied >= sim.objs[live[0]].raftLastApplied - 1:
+        c.viols.append({"signature": SIG_FOLD,
+                        "what": "node %s caught up by snapshot after %s was removed (committed): its member set still contains %s: %s"
+                                % (victim, gone, gone, sorted(c.members(victim)))})
+    v = c.viols + monitors.sm_safety(sim)
+    for e in sim.errors:
+        v.append({"signature": "exception-escaped:%s" % e[1], "what": "node %s: %s %s" % (e[0], e[1], e[2][:100])})
+    return c, v, note
+
+
 def directed_overlap(ctx, rng, kind="add"):
     """A re-sent batch that OVERLAPS the follower's log (entries it already stores, a membership command among them)
     and ends with a new entry — what a leader sends after a stale rejection hint: the kept entries stay effective."""
@@ -549,6 +606,12 @@ def run(ctx):
             for x in v:
                 x.setdefault("replay", {"directed": "snapshot", "grow": g, "seed": ctx.seed, "trace": c.sim.trace[-40:]})
             viols += v
+    c, v, note = directed_snapshot_removal(ctx, rng)
+    n += 1
+    cov.update(c.cov)
+    for x in v:
+        x.setdefault("replay", {"directed": "snapshot_removal", "seed": ctx.seed, "trace": c.sim.trace[-30:]})
+    viols += v
     for n0 in (2, 3, 4):
         c, v, note = directed_add_with_backlog(ctx, rng, n0)
         n += 1
@@ -586,7 +649,8 @@ def run(ctx):
            "samples": [sample], "disagreements": [], "violations": out[:4], "wall_s": round(time.time() - t0, 2)}
     need = ["request:add", "request:rem", "callback:6", "callback:0", "back-to-back", "isolate-leader", "start-node",
             "isolate-follower", "compacted-log", "fold-base:committed-prefix", "agreement:compared",
-            "caught-up-by-snapshot", "overlap-resend", "add-with-backlog", "commit-advance-checked"]
+            "caught-up-by-snapshot", "overlap-resend", "add-with-backlog", "commit-advance-checked",
+            "learned-removal-by-snapshot"]
     missing = [k for k in need if cov[k] == 0]
     if missing and not out:
         res["inconclusive"] = "coverage floor missed: " + ", ".join(missing)
